@@ -120,7 +120,7 @@ func callKind(call string) string {
 
 func okCall(log []doubles.Call, prefix string) bool {
 	for _, l := range log {
-		if strings.HasPrefix(l.Name, prefix) && (l.Result == "ok" || l.Result == "crash-after") {
+		if strings.HasPrefix(l.Name, prefix) && (l.Result == "ok" || l.Result == "crash-after" || l.Result == faultErrorAfter) {
 			return true
 		}
 	}
